@@ -1,11 +1,307 @@
 package main
 
+// Concurrent leg of C21: several goroutines drive the real pool on the bare rig; the verif hook
+// (system/mempool verifEvent, called under proxyMtx after each mutation) yields the linearised
+// mutation order together with a snapshot of every internal index.  Each event is written in
+// abstract form and validated by spec/Mempool/Mempool_Trace.tla.
+
 import (
 	"fmt"
+	"math/rand"
+	"sort"
+	"sync"
+	"sync/atomic"
+	"time"
 
+	sysmem "github.com/33cn/chain33/system/mempool"
+	"github.com/33cn/chain33/types"
 	"verif/harness/core"
 )
 
+// traceTab is the entry universe of the recorded runs: three plain senders, one eth sender,
+// two groups, expiry by height / block time.
+func traceTab() ([]*entry, []string) {
+	var tab []*entry
+	snd := []string{"A", "B", "C"}
+	for i := 0; i < 9; i++ {
+		e := &entry{S: snd[i%3], Ms: []string{}, Fee: int64(1 + i%4), Xk: "n"}
+		switch i {
+		case 1:
+			e.Xk, e.Xv = "h", 2
+		case 2:
+			e.Xk, e.Xv = "t", 0
+		case 5:
+			e.Xk, e.Xv = "h", 3
+		case 6:
+			e.Xk, e.Xv = "t", 1
+		case 3:
+			e.Grp, e.Ms, e.Fee = 2, []string{"B"}, 4
+		case 7:
+			e.Grp, e.Ms, e.Fee = 3, []string{"A", "C"}, 6
+		}
+		tab = append(tab, e)
+	}
+	for n := int64(0); n < 3; n++ {
+		tab = append(tab, &entry{S: "X", Ms: []string{}, Fee: 2 + n, Xk: "n", Eth: true, Nonce: n})
+	}
+	return tab, []string{"A", "B", "C", "X"}
+}
+
 func recordConcurrent(env *core.Env, emit func(map[string]any)) (*core.Summary, error) {
-	return nil, fmt.Errorf("not built yet")
+	sum := &core.Summary{Counters: map[string]int{}}
+	n := env.OptInt("n", 4)
+	workers := env.OptInt("workers", 6)
+	opsPer := env.OptInt("ops", 40)
+	phases := env.OptInt("phases", 3)
+	pc := poolCfg{Cap: env.OptInt("cap", 4), PerSender: env.OptInt("persender", 2), MaxLast: env.OptInt("maxlast", 3)}
+	tabList, senders := traceTab()
+	tab := map[int]*entry{}
+	for i, e := range tabList {
+		tab[i+1] = e
+	}
+	emit(map[string]any{"ev": "Conf", "tab": tabList, "senders": senders, "cap": pc.Cap, "persender": pc.PerSender, "maxlast": pc.MaxLast})
+	for t := 0; t < n; t++ {
+		types.VerifSetTimeShift(0)
+		start := time.Now()
+		t0 := start.Unix()
+		r, err := newBare(pc, t0)
+		if err != nil {
+			return nil, err
+		}
+		c, err := newConc(tab, senders, r.ChainID(), t0, 0, env.Seed*7919+int64(t), "")
+		if err != nil {
+			r.Close()
+			return nil, err
+		}
+		memberOf := map[string]int{}
+		for id, ms := range c.members {
+			for _, m := range ms {
+				memberOf[string(m.Hash())] = id
+			}
+		}
+		emit(map[string]any{"ev": "Reset"})
+		var failedPush, absentRm, swept int64
+		var hookErr atomic.Value
+		var prefix []any
+		var pmu sync.Mutex
+		// unknown hashes become -1 (the trace specification then has no matching step)
+		idOfH := func(h []byte) int {
+			if id, ok := c.byHash[string(h)]; ok {
+				return id
+			}
+			return -1
+		}
+		idsOf := func(hs [][]byte) []any {
+			out := []any{}
+			for _, h := range hs {
+				out = append(out, idOfH(h))
+			}
+			return out
+		}
+		r.mem.VerifSetHook(func(ev *sysmem.VerifEvent) {
+			s := ev.Snap
+			acc := map[string]any{}
+			for _, name := range senders {
+				acc[name] = idsOf(s.Accounts[c.keys.addr[name]])
+			}
+			known := 0
+			for _, name := range senders {
+				known += len(s.Accounts[c.keys.addr[name]])
+			}
+			if known != countAll(s.Accounts) {
+				// entries filed under an address that is none of the senders: make the snapshot disagree
+				acc[senders[0]] = append(acc[senders[0]].([]any), -1)
+			}
+			var sh []int
+			for k, h := range s.Short {
+				id := idOfH(h)
+				if types.CalcTxShortHash(h) != k {
+					id = -1
+				}
+				sh = append(sh, id)
+			}
+			sort.Ints(sh)
+			shl := []any{}
+			for _, id := range sh {
+				shl = append(shl, id)
+			}
+			out := map[string]any{"seq": s.Seq, "pool": idsOf(s.Queue), "latest": idsOf(s.Latest), "acc": acc, "sh": shl}
+			if s.TotalFee%feeUnit == 0 && s.TotalFee == s.SumFee {
+				out["fee"] = s.TotalFee / feeUnit
+			} else {
+				out["fee"] = fmt.Sprintf("total=%d contents=%d", s.TotalFee, s.SumFee)
+			}
+			if s.Bytes == s.SumBytes {
+				out["bytes"] = "ok"
+			} else {
+				out["bytes"] = fmt.Sprintf("counter=%d contents=%d", s.Bytes, s.SumBytes)
+			}
+			switch ev.Kind {
+			case "push":
+				out["ev"] = "Push"
+				out["e"] = idOfH(ev.Tx.Hash())
+				if ev.Err == nil {
+					out["ret"] = "ok"
+				} else {
+					out["ret"] = "rej"
+					atomic.AddInt64(&failedPush, 1)
+				}
+			case "remove":
+				out["ev"] = "Rm"
+				out["ids"] = idsOf(ev.Hashes)
+			case "rmblock":
+				out["ev"] = "RmBlock"
+				seen := map[int]bool{}
+				ids := []any{}
+				for _, tx := range ev.Block.GetTxs() {
+					if id, ok := memberOf[string(tx.Hash())]; ok && !seen[id] {
+						seen[id] = true
+						ids = append(ids, id)
+					}
+				}
+				out["ids"] = ids
+			case "sweep":
+				out["ev"] = "Sweep"
+				out["h"] = s.Height
+				out["t"] = (s.BlockTime - t0 - s.Height) / tick
+				if (s.BlockTime-t0-s.Height)%tick != 0 {
+					hookErr.Store(fmt.Sprintf("header time %d is not on the tick grid", s.BlockTime))
+				}
+			}
+			emit(out)
+			pmu.Lock()
+			if len(prefix) < 10 {
+				prefix = append(prefix, out)
+			}
+			pmu.Unlock()
+		})
+		rng := rand.New(rand.NewSource(env.Seed*31 + int64(t)))
+		now := int64(0)
+		var height int64
+		var chain [][]int
+		for ph := 0; ph < phases; ph++ {
+			var wg sync.WaitGroup
+			errs := make(chan error, workers+1)
+			// one goroutine owns the chain (blocks are produced sequentially in a node as well)
+			wg.Add(1)
+			chainSeed := rng.Int63()
+			go func() {
+				defer wg.Done()
+				cr := rand.New(rand.NewSource(chainSeed))
+				for i := 0; i < opsPer/4; i++ {
+					if cr.Intn(3) > 0 || len(chain) == 0 {
+						var ids []int
+						var members [][]*types.Transaction
+						onchain := map[int]bool{}
+						for _, b := range chain {
+							for _, id := range b {
+								onchain[id] = true
+							}
+						}
+						for k := 0; k < cr.Intn(3); k++ {
+							id := 1 + cr.Intn(len(tab))
+							if !onchain[id] {
+								onchain[id] = true
+								ids = append(ids, id)
+								members = append(members, c.members[id])
+							}
+						}
+						height++
+						chain = append(chain, ids)
+						if err := r.AddBlock(members, t0+now*tick+height); err != nil {
+							errs <- err
+							return
+						}
+					} else {
+						chain = chain[:len(chain)-1]
+						height--
+						if err := r.DelBlock(); err != nil {
+							errs <- err
+							return
+						}
+					}
+				}
+			}()
+			for w := 0; w < workers; w++ {
+				wg.Add(1)
+				ws := rng.Int63()
+				go func() {
+					defer wg.Done()
+					wr := rand.New(rand.NewSource(ws))
+					for i := 0; i < opsPer; i++ {
+						id := 1 + wr.Intn(len(tab))
+						switch x := wr.Intn(20); {
+						case x < 12:
+							if _, _, err := r.Submit(c.good[id]); err != nil {
+								errs <- err
+								return
+							}
+						case x < 16:
+							hs := [][]byte{c.good[id].Hash()}
+							if wr.Intn(2) == 0 {
+								hs = append(hs, c.good[1+wr.Intn(len(tab))].Hash())
+							}
+							if err := r.Remove(hs); err != nil {
+								errs <- err
+								return
+							}
+						case x < 18:
+							if _, err := r.TxList(1+wr.Intn(pc.Cap+1), nil); err != nil {
+								errs <- err
+								return
+							}
+						default:
+							r.Sweep()
+						}
+					}
+				}()
+			}
+			wg.Wait()
+			close(errs)
+			for err := range errs {
+				r.mem.VerifSetHook(nil)
+				r.Close()
+				return nil, err
+			}
+			if time.Since(start) > 300*time.Second {
+				r.mem.VerifSetHook(nil)
+				r.Close()
+				return nil, fmt.Errorf("trace took %v of real time: the clock model is no longer safe", time.Since(start))
+			}
+			if ph+1 < phases {
+				// quiescent: no request in flight, nothing queued for the pool
+				if err := barrier(r.cli); err != nil {
+					r.Close()
+					return nil, err
+				}
+				now++
+				types.VerifSetTimeShift(time.Duration(now*tick) * time.Second)
+				emit(map[string]any{"ev": "Tick", "now": now})
+			}
+		}
+		r.mem.VerifSetHook(nil)
+		r.Close()
+		types.VerifSetTimeShift(0)
+		if v := hookErr.Load(); v != nil {
+			return nil, fmt.Errorf("recorder: %v", v)
+		}
+		_ = absentRm
+		_ = swept
+		sum.Behaviours++
+		if failedPush > 0 {
+			sum.NonTrivial++
+		}
+		if len(sum.Samples) < 2 {
+			sum.Samples = append(sum.Samples, map[string]any{"trace_prefix": prefix, "workers": workers, "cap": pc.Cap, "persender": pc.PerSender})
+		}
+	}
+	return sum, nil
+}
+
+func countAll(m map[string][][]byte) int {
+	n := 0
+	for _, v := range m {
+		n += len(v)
+	}
+	return n
 }
